@@ -360,7 +360,13 @@ impl<'a> YamlEmitter<'a> {
         } else {
             self.level += 1;
             for (cnt, (k, v)) in h.iter().enumerate() {
-                let complex_key = matches!(k, Yaml::Mapping(_) | Yaml::Sequence(_));
+                // Implicit keys are limited to 1024 characters: as libyaml does, write longer
+                // strings as explicit keys too.
+                let complex_key = match k {
+                    Yaml::Mapping(_) | Yaml::Sequence(_) => true,
+                    Yaml::Value(Scalar::String(string)) => string.len() > 128,
+                    _ => false,
+                };
                 if cnt > 0 {
                     writeln!(self.writer)?;
                     self.write_indent()?;
